@@ -173,6 +173,110 @@ def figure_lifecycle(ctx, rule='C20-R2'):
                       instance=f'{fq}: files only when save_stem is given')
 
 
+FIG_MAKERS = {'matplotlib.pyplot.figure', 'matplotlib.pyplot.subplots', 'matplotlib.pyplot.subplot_mosaic',
+              'matplotlib.figure.Figure', 'matplotlib.pyplot.gcf'}
+
+
+def one_figure_per_plot(ctx, rule='C20-R9'):
+    """On every path through a plotting function at most one call creates a figure (directly, or through a function /
+    constructor that does): the close at the end closes one figure - the one the plot object holds -, so a second one
+    created on the way (a "fresh" figure for a panel, say) stays registered with pyplot after show=False."""
+    fx = effects(ctx)
+    p = ctx.project
+    plot_funcs = sorted(q for q, f in p.funcs.items() if f.module.name.startswith('ampycloud.plots') and q in fx.summ)
+    direct = {q for q in plot_funcs
+              if any(e.kind == 'call' and (call_head(e) or '') in FIG_MAKERS for e in fx.own_events(q))}
+    ctx.floor(rule, 'plot functions creating a figure', len(direct), 2)
+
+    def creates(head):
+        if head in FIG_MAKERS:
+            return True
+        if head in p.classes:
+            init = p.find_method(p.classes[head], '__init__')
+            head = init.qname if init is not None else None
+        return head in fx.summ and bool(fx.reachable([head]) & direct)
+    n = 0
+    for q in plot_funcs:
+        f = p.funcs[q]
+        makers = [e for e in fx.own_events(q) if e.kind == 'call' and creates(call_head(e) or '') and e.guard != T.FALSE]
+        if not makers:
+            continue
+        n += 1
+        ctx.saw(f)
+        bad = None
+        for i, a in enumerate(makers):
+            if a.loops:
+                bad = (a, a)
+                break
+            for b in makers[i + 1:]:
+                if T.mk_and([a.guard, b.guard]) != T.FALSE:
+                    bad = (a, b)
+                    break
+            if bad:
+                break
+        if bad:
+            a, b = bad
+            ctx.violation(rule, q, b.node, b.loc(),
+                          f'{call_head(b)} creates a figure ' + ('inside a loop' if a is b else
+                                                                   f'although {call_head(a)} at {a.loc()} has already created one on this path')
+                          + ': only the figure the plot object holds at the end is closed, the other one stays open',
+                          instance=f'{q}: at most one figure is created per path')
+        else:
+            ctx.ok(rule, f'{q}: one figure-creating call per path ({", ".join(sorted({call_head(e) for e in makers}))})', f.loc())
+    ctx.floor(rule, 'plot functions that (transitively) create figures', n, 4)
+
+
+def optional_arguments_guarded(ctx, rule='C20-R10', modules=('ampycloud.plots',)):
+    """An argument whose default is None (the reference METAR, its origin, the save stem, ...) enters string
+    concatenation or arithmetic only where the path condition excludes None: `'text' + None` is a TypeError, while the
+    f-string it may have replaced prints 'None'."""
+    import ast as _ast
+    from sa.rules.common import param_default
+    fx = effects(ctx)
+    p = ctx.project
+    n = 0
+    for q, f in sorted(p.funcs.items()):
+        if not f.module.name.startswith(tuple(modules)) or q not in fx.summ:
+            continue
+        def admits_none(a):
+            d = param_default(f, a)
+            if isinstance(d, _ast.Constant) and d.value is None:
+                return True
+            args = f.node.args
+            ann = next((x.annotation for x in args.posonlyargs + args.args + args.kwonlyargs if x.arg == a), None)
+            if ann is None:
+                return False
+            src = _ast.unparse(ann)
+            return 'Optional[' in src or 'None' in src
+        optional = [a for a in f.params if admits_none(a)]
+        if not optional:
+            continue
+        ctx.saw(f)
+        seen = set()
+        for e in fx.own_events(q):
+            for nm, v in fx.terms_of(e):
+                if nm == 'guard' or v is None:
+                    continue
+                for x in T.walk(v):
+                    if tag(x) != 'bin' or x[1] not in ('+', '-', '*', '/', '%', '//', '**'):
+                        continue
+                    for o in (x[2], x[3]):
+                        if tag(o) == 'p' and o[1] in optional:
+                            if x[1] == '%' and o is x[3]:
+                                continue                     # 'format %s' % None is fine
+                            key = (T.key(x), o[1])
+                            if key in seen:
+                                continue
+                            seen.add(key)
+                            n += 1
+                            notnone = T.mk_not(('cmp', 'is', o, T.NONE))
+                            ctx.check(T.implies(e.guard, notnone) is True, rule, q, e.node, e.loc(),
+                                      f'{o[1]} (may be None) is used in {T.show(x, maxlen=100)} under {T.show(e.guard, maxlen=100)}, '
+                                      f'which does not exclude {o[1]} is None: None in a concatenation / in arithmetic is a '
+                                      'TypeError', instance=f'{q}: {o[1]} is not None where it is concatenated / computed with')
+    ctx.ok(rule, f'{n} uses of optional arguments in concatenation / arithmetic, all under `is not None`', '')
+
+
 def chunk_read_only(ctx, rule='C20-R3'):
     fx = effects(ctx)
     p = ctx.project
